@@ -677,11 +677,20 @@ func ConvertToSameType(leftType, rightType interface{}) (interface{}, interface{
 	}
 
 	var err error
+	var converted interface{}
 
+	// Only replace a value when its conversion succeeded, so that a failed
+	// conversion falls back to comparing the original values as strings.
 	if unsafe.Sizeof(leftType) > unsafe.Sizeof(rightType) {
-		rightType, err = ConvertExpToType(rightType, leftType)
+		converted, err = ConvertExpToType(rightType, leftType)
+		if err == nil {
+			rightType = converted
+		}
 	} else {
-		leftType, err = ConvertExpToType(leftType, rightType)
+		converted, err = ConvertExpToType(leftType, rightType)
+		if err == nil {
+			leftType = converted
+		}
 	}
 
 	if err != nil {
